@@ -366,6 +366,9 @@ pub assume_specification<T, P: FnOnce(&T) -> bool>[ Option::<T>::filter ](o: Opt
     ensures o is None ==> r is None,
         r is Some ==> o is Some && r == o && p.ensures((&o->Some_0,), true),
         o is Some && r is None ==> p.ensures((&o->Some_0,), false);
+// std::cmp::max(a, b): b unless a > b
+pub assume_specification<T: Ord>[ core::cmp::max ](a: T, b: T) -> (r: T)
+    ensures T::obeys_cmp_spec() ==> r == (if a.cmp_spec(&b) == Ordering::Greater { a } else { b });
 // u64::pow: aborts on overflow (overflow-checks = true)
 pub assume_specification[ u64::pow ](b: u64, e: u32) -> (r: u64)
 //%if A
